@@ -122,4 +122,74 @@ theorem affix_accumulation (cs : Gvk → Bool) :
 theorem skip_list_expected : Gen.prefixSkipKinds = ["CustomResourceDefinition", "APIService", "Namespace"] := by
   decide
 
+
+/-! ### wrapping -/
+
+theorem empty_append (s : String) : "" ++ s = s := by apply String.toList_inj.mp; simp
+theorem append_empty (s : String) : s ++ "" = s := by apply String.toList_inj.mp; simp
+
+theorem orgId_ok_of_aligned (r : R) (ha : r.Aligned) : ∃ i, r.orgId = .ok i := by
+  have ha' : r.pNames.length = r.pNss.length ∧ r.pNames.length = r.pKinds.length := ha
+  have hp : r.prevIds = .ok (if r.pNames = [] then [] else zip3 r.gvk r.pNames r.pNss r.pKinds) := by
+    unfold R.prevIds
+    by_cases h : r.pNames = []
+    · simp [h]
+    · rw [if_neg h, if_pos ha', if_neg h]
+  unfold R.orgId
+  rw [hp]
+  cases (if r.pNames = [] then [] else zip3 r.gvk r.pNames r.pNss r.pKinds) with
+  | nil => exact ⟨_, rfl⟩
+  | cons i _ => exact ⟨i, rfl⟩
+
+/-- **a layer without directives changes nothing** — not the name, not the namespace, not even the bookkeeping -/
+theorem empty_layer_noop (cs : Gvk → Bool) (skip : String → Bool) (r : R) (ha : r.Aligned) :
+    layerStep cs skip {} r = .ok r := by
+  obtain ⟨i, hi⟩ := orgId_ok_of_aligned r ha
+  have h1 : prefixStep cs skip "" r = .ok r := by
+    unfold prefixStep
+    rw [hi]
+    by_cases hs : skip i.gvk.kind
+    · simp [hs]
+    · simp [hs, appendCsv]
+  have h2 : suffixStep cs skip "" r = .ok r := by
+    unfold suffixStep
+    rw [hi]
+    by_cases hs : skip i.gvk.kind
+    · simp [hs]
+    · simp [hs, appendCsv]
+  simp [layerStep, nsStep, h1, h2]
+
+theorem layers_append (cs : Gvk → Bool) (skip : String → Bool) : ∀ (l1 l2 : List Layer) (r r1 : R),
+    layers cs skip l1 r = .ok r1 → layers cs skip (l1 ++ l2) r = layers cs skip l2 r1 := by
+  intro l1
+  induction l1 with
+  | nil => intro l2 r r1 h; simp [layers] at h; subst h; rfl
+  | cons l ls ih =>
+    intro l2 r r1 h
+    simp only [layers, List.cons_append] at h ⊢
+    cases hl : layerStep cs skip l r with
+    | ok r0 => simp only [hl] at h ⊢; exact ih l2 r0 r1 h
+    | err c => simp [hl] at h
+    | panic c => simp [hl] at h
+
+/-- **wrapping is transparent**: listing a kustomization in an overlay that has no directives of its own — any number of
+    such overlays — gives every resource exactly what the wrapped kustomization gives it -/
+theorem wrap_transparent (cs : Gvk → Bool) (skip : String → Bool) (ls : List Layer) (n : Nat) (r r' : R) (h : r.Good)
+    (he : layers cs skip ls r = .ok r') : layers cs skip (ls ++ List.replicate n ({} : Layer)) r = .ok r' := by
+  have hg : r'.Good := layers_good cs skip ls r r' h he
+  rw [layers_append cs skip ls _ r r' he]
+  induction n with
+  | zero => rfl
+  | succ k ih =>
+    have := empty_layer_noop cs skip r' hg.1
+    simp only [List.replicate_succ, layers, this]
+    exact ih
+
+/-- … and a wrapper UNDER the directives (an inner layer without directives) is as transparent -/
+theorem inner_wrap_transparent (cs : Gvk → Bool) (skip : String → Bool) (ls : List Layer) (r : R) (h : r.Good) :
+    layers cs skip (({} : Layer) :: ls) r = layers cs skip ls r := by
+  have := empty_layer_noop cs skip r h.1
+  simp only [layers, this]
+
+
 end Kust.C11
